@@ -10,6 +10,8 @@ to a marker file (proof that it ran) and issues raw probe system calls with chos
 Judged against the property text: invalid => exit status != 0 and no marker; valid => marker, and every probe
 outcome equals the extracted `decide` of the policy the file denotes. Nothing is decided by message texts."""
 import json
+
+import ambient
 import os
 import random
 import shutil
@@ -125,6 +127,11 @@ class Box:
             return "building the probe target failed:\n" + r.stdout + r.stderr
         os.chmod(self.sandbox, 0o755)
         os.chmod(self.target, 0o755)
+        # a valid policy that allows everything: what every path-like environment variable points to in hostile runs
+        self.decoy = os.path.join(self.dir, "decoy.yml")
+        with open(self.decoy, "w") as f:
+            f.write("seccomp:\n  default_action: allow\n  syscalls:\n  - action: allow\n    names:\n    - getpid\n")
+        os.chmod(self.decoy, 0o644)
         return None
 
     def run(self, case):
@@ -147,6 +154,17 @@ class Box:
                 f.write(" ".join(str(x) for x in p) + "\n")
         os.chmod(probes, 0o644)
         args = [self.sandbox, "-policy", pf]
+        cwd = self.dir
+        ddir = None
+        if case.get("cwd_default") and kind == "text" and case.get("ext", ".yml") == ".yml":
+            # the file is ./seccomp.yml (the flag's default value) in a directory of its own
+            ddir = base + ".d"
+            os.makedirs(ddir, exist_ok=True)
+            os.chmod(ddir, 0o755)
+            shutil.copy(pf, os.path.join(ddir, "seccomp.yml"))
+            os.chmod(os.path.join(ddir, "seccomp.yml"), 0o644)
+            cwd = ddir
+            args = [self.sandbox] if case["cwd_default"] == "noflag" else [self.sandbox, "-policy", "seccomp.yml"]
         if case.get("nnp") is not None:
             args.append("-no-new-privs=%s" % ("true" if case["nnp"] else "false"))
         if case.get("target", "probe") == "probe":
@@ -164,8 +182,12 @@ class Box:
         kw = {}
         if case.get("uid"):
             kw = dict(user=case["uid"], group=case["uid"], extra_groups=[])
+        env = dict(os.environ, GODEBUG="asyncpreemptoff=1", GOTRACEBACK="none")
+        if case.get("hostile"):
+            # every variable the sources could ask for is set (lib/ambient.py); path-like ones name a policy that allows everything
+            env = ambient.noise_env(env, value=lambda n: self.decoy)
         try:
-            r = subprocess.run(args, capture_output=True, timeout=30, cwd=self.dir, env=dict(os.environ, GODEBUG="asyncpreemptoff=1", GOTRACEBACK="none"),
+            r = subprocess.run(args, capture_output=True, timeout=30, cwd=cwd, env=env,
                                stdin=subprocess.DEVNULL, **kw)
             code, out, err = r.returncode, r.stdout.decode("utf-8", "replace"), r.stderr.decode("utf-8", "replace")
         except subprocess.TimeoutExpired as e:
@@ -181,6 +203,8 @@ class Box:
             os.remove(pf)
         if opf:
             os.remove(opf)
+        if ddir:
+            shutil.rmtree(ddir, ignore_errors=True)
         return dict(exit=code, marker=ml, out=out.splitlines(), stderr=err[-600:], argv=args)
 
 
@@ -414,6 +438,15 @@ def check_C15(ctx, replay=None):
                 stats["valid"] += 1
                 probes = [tuple(int(x) for x in (it["events"][i].split()[1:2] + it["events"][i].split()[4:10])) for i in idxs]
                 case = dict(file=("text", it["yaml"]), nnp=it["nnp"], uid=it["uid"], target="probe", probes=probes, extra_args=it.get("extra_args", []), ext=it.get("ext", ".yml"))
+                if replay and replay.get("case"):
+                    case.update(hostile=replay["case"].get("hostile"), cwd_default=replay["case"].get("cwd_default"))
+                else:
+                    hr = rng.random()
+                    if hr < 0.3:
+                        case["hostile"] = True
+                    if hr < 0.2 or hr > 0.92:
+                        case["cwd_default"] = "noflag" if hr < 0.07 or hr > 0.96 else "flag"
+                stats["kinds"]["hostile environment" if case.get("hostile") else "plain environment"] = stats["kinds"].get("hostile environment" if case.get("hostile") else "plain environment", 0) + 1
                 r = box.run(case)
                 t = parse_target_output(r["out"])
                 if len(samples) < 4:
